@@ -990,8 +990,10 @@ def call_shape_phase(chk, rng, n):
         def argval():
             # mostly small integers; also values that are None (a supplied argument all the same), nested calls and string
             # literals holding parentheses / commas / equals signs (the call is split by parenthesis scans on both sides)
-            if rng.random() < 0.75 or "p + 1" in sig:      # a default that computes with p needs a number there
+            if rng.random() < 0.6 or "p + 1" in sig:      # a default that computes with p needs a number there
                 return str(rng.randint(0, 9))
+            if rng.random() < 0.4:
+                return rng.choice(["None", "nothing"])
             return rng.choice(["None", "nothing", "max(1, 2)", "(3)", "[1, 2]", "'a, b'", "'k=v'", "'f(x)'", "'hi :)'",
                                '"(unclosed"', "'x)'", "{'k': (1, 2)}['k'][0]"])
         vals_special = False
